@@ -5,6 +5,8 @@ CONSTANTS
   KProgs <- MCKProgs
   RProgs <- MCRProgs
   FaultAts = {0, 2, 3}
+  MultiQ = FALSE
+  KeepSched = TRUE
 VIEW View
 INVARIANTS MonitorOK CloseLatched WCBounded
 CHECK_DEADLOCK FALSE
